@@ -9,7 +9,7 @@ PING replies, the 1 s grace timer last), which is what the harness waits for eve
   reset pl=<0|1> k k …             k ∈ bg (Background ctx) | cn (cancellable, no deadline) | dl (deadline)
   act call i | calldone i | calldl i | release | cancel i | kill | close
   end
-`!` lines are answered from the specification (the statements of Rv.C04b), not from the model:
+`!` lines are answered from the specification (the statements of Rv.C04.Life), not from the model:
   !call <returned> <class> <ctxAtStart> <ctxDone> <sent>
   !final <bgStarted> <triggered> <state> <waits>
 -/
@@ -90,7 +90,7 @@ def act (s : St) (ws : List String) : Except String St :=
 
 def b (w : String) : Bool := w == "1"
 
-/-- what C04/C05 demand of one call (Rv.C04b: no_call_left_behind, every_admitted_call_resolves_partial,
+/-- what C04/C05 demand of one call (Rv.C04.Life: no_call_left_behind, every_admitted_call_resolves_partial,
     closed_pipe_rejects, reply_exactly_once, done_ctx_sends_nothing, done_ctx_returns): it returned; with
     its replies, a transport error, ErrClosing or its own context error; the context error only when its
     context is done; when the context was done before the call, the context error and nothing sent -/
